@@ -239,6 +239,14 @@ MODELLED = {
     ("proto/parse.py", "Parser.frame_ack_decode"): {0: "ack_dec_fmt"},
     ("proto/parse.py", "Parser.frame_is_ack"): {},
     ("proto/parse.py", "Parser.frame_is_stream"): {},
+    ("proto/iparse.py", "msfmt_get"): {10: "msfmt_default_suffix"},
+    ("proto/iparse.py", "dsfmt_get"): {},
+    ("proto/parse.py", "Parser._stream_data_get"): {0: "decode_unit_scale", 3: "decode_text_errors"},
+    ("proto/parse.py", "Parser.frame_stream_decode"): {3: "stream_le_prefix", 4: "meta_le_prefix"},
+    ("proto/parserecv.py", "ParseRecv._stream_bytes_get"): {
+        0: "enc_le_prefix", 1: "enc_chan_code", 2: "enc_unit_scale", 4: "enc_text_codec"},
+    ("proto/parserecv.py", "ParseRecv._stream_data_encode"): {2: "enc_flags_fmt"},
+    ("proto/parserecv.py", "ParseRecv.frame_stream_encode"): {},
     ("intf/iintf.py", "CommInterfaceCommon.data_align"): {0: "align_pad_byte"},
     ("intf/iintf.py", "CommInterfaceCommon.write"): {},
     ("intf/iintf.py", "CommInterfaceCommon.read"): {},
@@ -361,6 +369,10 @@ def run(bless=False):
 
     files = {}
     files.update(emit_shapes(vectors))
+    try:
+        files.update(emit_types(mods, consts, status))
+    except ShapeError as e:
+        status["errors"].append(str(e))
     if bless:
         write_pinned(vectors)
     try:
@@ -493,6 +505,78 @@ def emit_frame(mods, c, status):
                "chinfo_dec_hdr", "chinfo_dec_prefix", "chinfo_dec_suffix", "ack_dec_fmt"):
         req.append(coq_const(nm, c[nm]))
     return {"Gen_frame.v": "\n".join(out) + "\n", "Gen_req.v": "\n".join(req) + "\n"}
+
+
+def emit_types(mods, c, status):
+    """dsfmt_dict rows and msfmt_dict of proto/iparse.py, read structurally."""
+    mp = mods.get("proto/iparse.py") or Module("proto/iparse.py")
+    md = mods.get("dev.py") or Module("dev.py")
+    types = dict(md.enum("EDeviceChannelType"))
+    kinds = dict(mp.enum("EParseDataType"))
+    fn = mp.func("dsfmt_get")
+    table = None
+    for n in ast.walk(fn):
+        if isinstance(n, ast.Assign) and len(n.targets) == 1 and isinstance(n.targets[0], ast.Name) \
+                and n.targets[0].id == "dsfmt_dict" and isinstance(n.value, ast.Dict):
+            table = n.value
+    if table is None:
+        raise ShapeError("iparse.py: dsfmt_dict not found")
+    rows = []
+    for k, v in zip(table.keys, table.values):
+        if not (isinstance(k, ast.Attribute) and k.attr == "value" and isinstance(k.value, ast.Attribute)
+                and isinstance(k.value.value, ast.Name) and k.value.value.id == "EDeviceChannelType"):
+            raise ShapeError("dsfmt_dict key not recognised: %s" % ast.dump(k)[:60])
+        tval = types[k.value.attr]
+        if not (isinstance(v, ast.Call) and isinstance(v.func, ast.Name) and v.func.id == "DsfmtItem"
+                and len(v.args) == 4 and not v.keywords):
+            raise ShapeError("dsfmt_dict row for %s not recognised" % k.value.attr)
+        slen, fmt, scale, kind = v.args
+        if not (isinstance(slen, ast.Constant) and isinstance(slen.value, int)):
+            raise ShapeError("slen not a literal")
+        if not (isinstance(fmt, ast.Constant) and isinstance(fmt.value, str)):
+            raise ShapeError("dsfmt not a literal")
+        if not isinstance(scale, ast.Constant):
+            raise ShapeError("scale not a literal")
+        sv = scale.value
+        if sv is None:
+            sc = "SNone"
+        elif isinstance(sv, bool):
+            raise ShapeError("bool scale")
+        elif isinstance(sv, int):
+            sc = "SInt (%d)" % sv
+        elif isinstance(sv, float) and sv == int(sv):
+            sc = "SFloat (%d)" % int(sv)
+        else:
+            raise ShapeError("scale %r not supported" % (sv,))
+        if not (isinstance(kind, ast.Attribute) and isinstance(kind.value, ast.Name)
+                and kind.value.id == "EParseDataType"):
+            raise ShapeError("row kind not recognised")
+        rows.append("(%d, mkRow %d %s (%s) %d)" % (tval, slen.value, coq_string(fmt.value), sc, kinds[kind.attr]))
+    # msfmt_get
+    fm = mp.func("msfmt_get")
+    mtab = None
+    for n in ast.walk(fm):
+        if isinstance(n, ast.Assign) and isinstance(n.value, ast.Dict):
+            mtab = n.value
+    if mtab is None:
+        raise ShapeError("iparse.py: msfmt_dict not found")
+    mrows = []
+    for k, v in zip(mtab.keys, mtab.values):
+        if not (isinstance(k, ast.Constant) and isinstance(k.value, int) and isinstance(v, ast.Constant)
+                and isinstance(v.value, str)):
+            raise ShapeError("msfmt_dict entry not recognised")
+        mrows.append("(%d, %s)" % (k.value, coq_string(v.value)))
+    out = [HEADER % "src/nxslib/proto/iparse.py (dsfmt_dict, msfmt_dict), dev.py"]
+    out.append("From NX Require Import StreamTypes.\n")
+    out.append("Definition data_kinds : list (string * Z) := [%s]." % "; ".join(
+        "(%s, %d)" % (coq_string(n), v) for n, v in kinds.items()))
+    out.append("Definition dsfmt_rows : list (Z * row) :=\n  [%s]." % ";\n   ".join(rows))
+    out.append("Definition msfmt_rows : list (Z * string) := [%s]." % "; ".join(mrows))
+    for nm in ("msfmt_default_suffix", "stream_le_prefix", "meta_le_prefix", "decode_unit_scale", "decode_text_errors",
+               "enc_le_prefix", "enc_chan_code", "enc_unit_scale", "enc_text_codec", "enc_flags_fmt"):
+        if nm in c:
+            out.append(coq_const(nm, c[nm]))
+    return {"Gen_types.v": "\n".join(out) + "\n"}
 
 
 def emit_misc(mods, c, status):
